@@ -8,6 +8,8 @@ func All() []core.Prop {
 		C01{},
 		C07{},
 		C08{},
+		C09{},
+		C10{},
 		C11{},
 		C13{},
 		C14{},
